@@ -32,7 +32,7 @@ ASSUMPTIONS = ["pin order inside a wire is not compared (Verilog has no such ord
                "box necessarily comes back as a declared `celldefine module)",
                "top instance name and netlist name are not compared (not in the statement)"]
 REQUIRED = {"round_trips": 150, "bits_compared": 5000}
-FEATURES = ["shuffle", "consts", "undeclared", "positional", "escaped", "params", "attrs", "assigns", "comments"]
+FEATURES = ["shuffle", "consts", "undeclared", "positional", "escaped", "params", "attrs", "assigns", "comments", "grouped"]
 
 
 def plan(tier):
